@@ -31,7 +31,7 @@ func init() {
 		Rule: "(magnitude) every integer parameter of the language - slice start/stop/step, index, find_first/find_last start and end, replace and split counts, pad widths up to 2^12 - ranges over the whole 64-bit range {0, +-1, +-2, n-1, n, n+1, +-2^15, +-2^31, +-2^62, 2^63-1, -2^63} " +
 			"in all combinations on arrays and strings (ASCII and mixed width) of length 0, 1, 3, 8; numeric text with exponents and coefficients of up to 10^5 digits goes through arithmetic, comparison and conversion; " +
 			"(growth) every size family (expression length, nesting depth, array / object / string size, fan-out of nested projections, inputs of sort_by / group_by / zip / merge / contains / ==) is run at n = 64 .. 4096 doubling; " +
-			"oracle: loop iterations inside the library <= 64 * (|expression| + |document| + |result|) * max(1, log2) + 512 and bytes allocated <= 4096 * size + 1 MiB for the magnitude part, iterations(2n) / iterations(n) <= 8 for the growth part; " +
+			"oracle: loop iterations and function entries inside the library <= 64 * (|expression| + |document| + |result|) * max(1, log2) + 512 and bytes allocated <= 4096 * size + 1 MiB for the magnitude part; <= 64 * size^2 and iterations(2n) / iterations(n) <= 8 for the growth part (a low-order polynomial passes, an exponential does not); " +
 			"a tick-budget abort, a worker killed by the memory limit or a call still running at the 60 s watchdog is a violation; non-trivial = a call that returns a non-empty value; distinct_nontrivial counts distinct results",
 		Phases: []core.Phase{{Name: "magnitude", Build: "instr", Fn: c09RunMagnitude, CrashIsViolation: true}, {Name: "growth", Build: "instr", Fn: c09RunGrowth, CrashIsViolation: true},
 			{Name: "many-expressions", Build: "instr", Procs: 1, Fn: c09RunMany, CrashIsViolation: true}},
@@ -601,7 +601,9 @@ func c09GrowthCheck(r *core.Run, f c09Family, thorough bool) *core.Violation {
 		if c.Obs.Kind == "panic" {
 			return mk("panic", "returns", c.Obs.Short())
 		}
-		lim := int64(c09TickFactor)*int64(c.Size)*int64(math.Max(1, math.Log2(float64(c.Size)))) + c09TickSlack
+		// the property allows a low-order polynomial: a quadratic routine passes (its per-call bound is 64 * size^2), an
+		// exponential one runs into this bound or into the iteration budget within a few doublings
+		lim := int64(c09TickFactor)*int64(c.Size)*int64(c.Size) + c09TickSlack
 		if c.Ticks > lim {
 			return mk("too-many-iterations", fmt.Sprintf("at most %d loop iterations for a total size of %d", lim, c.Size), fmt.Sprintf("%d iterations", c.Ticks))
 		}
